@@ -339,7 +339,7 @@ def expiry_plan(n, tier=None):
     return [(a, h, blob_key(n, a, h)) for a in anns for h in HASH_NAMES]
 
 
-def histories(n, long):
+def histories(n, long, multi=False):
     """Announcement histories on one timeline: (label, key, [(offset seconds, announcer, duplicate the store datagrams)]).
     'single' = the (announcer, hash) alphabet of the hit half, announced once at offset 0.  The long part adds the same
     node announcing the same blob again 1 s / 12 h / 24 h - 1 s / 24 h 10 min later, a second node announcing it 12 h later,
@@ -360,8 +360,8 @@ def histories(n, long):
         # up to three announcers of one blob with independent schedules: announcer i (node n-1-i) first announces at
         # t0 + i s (so the storing nodes list them in that order) and either never again ('O') or again 12 h later
         # ('R'): every combination of list position and record age occurs, before and after the hourly sweeps
-        m = min(3, n)
-        for pattern in itertools.product('OR', repeat=m):
+        m = min(3, n) if multi else 0
+        for pattern in (itertools.product('OR', repeat=m) if m else ()):
             tag = ''.join(pattern)
             anns = []
             for i, c in enumerate(pattern):
@@ -375,9 +375,10 @@ def histories(n, long):
 SINGLE_PROBES = (DAY - 1, DAY, DAY + 1)
 LONG_PROBES = (DAY - 1, DAY, DAY + 1, DAY + 2, 36 * HOUR - 1, 36 * HOUR + 1, 2 * DAY - 2, 2 * DAY, 2 * DAY + 599,
                2 * DAY + 600, 2 * DAY + 601)
-# the several-announcer histories are probed every 6 h and, after each wave of records passed 24 h (24 h .. 24 h + 2 s and
-# 36 h .. 36 h + 2 s), after each of the next three hourly refresh_node sweeps (every node sweeps once per 3600 s)
-SWEEP_PROBES = tuple(h * HOUR + 100 for h in (6, 12, 18, 24, 25, 26, 27, 30, 36, 37, 38, 39, 42, 48)) + \
+# the several-announcer histories are probed every 12 h and, after each wave of records passed 24 h (24 h .. 24 h + 2 s and
+# 36 h .. 36 h + 2 s), at once and after each of the next two hourly refresh_node sweeps (every node sweeps once per 3600 s),
+# by the first and the last node
+SWEEP_PROBES = tuple(h * HOUR + 100 for h in (12, 24, 25, 26, 36, 37, 38, 48)) + \
     (DAY - 1, DAY + 1, 36 * HOUR - 1, 36 * HOUR + 1)
 
 
@@ -405,7 +406,7 @@ def expected_at(now, stamps):
     return None
 
 
-def expiry_case(net, long=False):
+def expiry_case(net, long=False, multi=False):
     """Runs every history of histories(n, long) on one timeline that starts now (t0): announcements at their offsets (through
     the real announce_blob / store path), value lookups by every other node at t0+24h-1s, +24h, +24h+1s and, for the long
     histories, around 36 h and 48 h, all after unbroken periodic traffic.  The expectation of every probe is computed from
@@ -413,7 +414,7 @@ def expiry_case(net, long=False):
     from vf.udpfab import node_ip
     lp = net.loop
     lp.activate()
-    hs = histories(net.n, long)
+    hs = histories(net.n, long, multi)
     t0 = lp.time()
     obs = {'announce': [], 'probes': [], 't0': t0}
     done = {}                      # (history index, announcer) -> [(start, end)]
@@ -447,7 +448,7 @@ def expiry_case(net, long=False):
             if off not in probes_of(label):
                 continue
             who = sorted({a for _, a, _ in anns})
-            for s in range(net.n):
+            for s in ((0, net.n - 1) if label.startswith('announcers-in-list-order') else range(net.n)):
                 if who == [s]:
                     continue
                 sink = []
@@ -755,11 +756,12 @@ def work_hit(item, res):
             case = dict(base, ann=d['ann'], hash=d['hash'], entry=d.get('entry', 'finder'))
             dfs_parts(net, case, fixed, d['bound'], d['alphabet'], d['part'], d['parts'], res)
         if item.get('expiry'):
-            long = item['expiry'] == 'long'
-            obs = fork_call(expiry_case, net, long)
+            long = item['expiry'].startswith('long')
+            multi = item['expiry'] == 'long+multi'
+            obs = fork_call(expiry_case, net, long, multi)
             res.count('executions')
             res.count('evaluations', len(obs['probes']))
-            res.distinct_add('states', ('expiry', n, tuple(order), stagger, long))
+            res.distinct_add('states', ('expiry', n, tuple(order), stagger, long, multi))
             for h in {p['history'] for p in obs['probes']}:
                 res.distinct_add('nontrivial', ('expiry', n, tuple(order), stagger, h))
             for p in obs['probes']:
@@ -775,7 +777,7 @@ def work_hit(item, res):
                     res.witness('reannouncement_with_duplicated_store_datagrams')
                 if p['history'] == 'second-announcer+12h' and p['at'] == DAY + 1 and p['expect'] == 'found' and p['hit']:
                     res.witness('two_announcers_expire_on_their_own_clocks')
-            if long and obs.get('nodes_swept_before_probe') and \
+            if multi and obs.get('nodes_swept_before_probe') and \
                     all(v == n for v in obs['nodes_swept_before_probe'].values()):
                 res.witness('every_node_ran_hourly_sweep_between_record_expiry_and_probe')
             res.setmax('refresh_sweeps_in_one_history_timeline', obs.get('sweeps', 0))
@@ -786,7 +788,7 @@ def work_hit(item, res):
             if obs['duplicate_entries']:
                 res.tally('interpretation_only:data_store_lists_one_contact_twice_for_a_blob', obs['duplicate_entries'])
             for sig, what in judge_expiry(n, obs):
-                res.violation(sig, what, dict(base, half='expiry', long=long))
+                res.violation(sig, what, dict(base, half='expiry', long=long, multi=multi))
         if item.get('port_change'):
             obs = fork_call(port_change_case, net)
             res.count('executions')
@@ -1315,9 +1317,9 @@ def plan(tier, seed):
                 # re-announcement histories over 48 h, 'short' = single announcements over 24 h + 1 s only
                 if stagger == staggers[0]:
                     if quick:
-                        expiry = 'long' if (oi == 0 and n <= 4) else False
+                        expiry = ('long+multi' if n <= 3 else 'long') if (oi == 0 and n <= 4) else False
                     elif oi == 0 and n <= 12:
-                        expiry = 'long' if n <= 5 else 'short'
+                        expiry = 'long+multi' if n <= 5 else 'short'
                     else:
                         expiry = 'short' if (oi == len(orders) - 1 and n <= 5) else False
                     if expiry:
@@ -1435,7 +1437,7 @@ def estimate(it):
     d = it.get('dfs')
     if d:
         return (60 if d['bound'] >= 2 else 3 * n) / d['parts'] * (1 if d['alphabet'] == 'full' else 0.5) + 0.1 * n
-    return 0.12 * n + 0.01 * n * len(it.get('cases', ())) + ({'long': 2.2, 'short': 1.1}.get(it.get('expiry'), 0) * n) + \
+    return 0.12 * n + 0.01 * n * len(it.get('cases', ())) + ({'long+multi': 3.0, 'long': 2.4, 'short': 1.1}.get(it.get('expiry'), 0) * n) + \
         (1.7 * n if it.get('port_change') else 0) + it.get('announcer_hours', 0) / 24 * 1.1 * n
 
 
@@ -1530,7 +1532,7 @@ def replay(data):
                 viol = [({'kind': 'join-never-quiesces', 'n': data['n']}, 'virtual time does not advance')] if info['stuck'] \
                     else [] if info['all_joined'] else [({'kind': 'join-failed', 'n': data['n']}, 'not every node joined')]
             elif half == 'expiry':
-                obs = expiry_case(net, bool(data.get('long')))
+                obs = expiry_case(net, bool(data.get('long')), bool(data.get('multi')))
                 viol = judge_expiry(data['n'], obs)
                 log.append(canon(obs['announce']))
                 log += [canon(p) for p in obs['probes'] if (p['expect'] == 'found') != p['hit']]
